@@ -377,9 +377,18 @@ package route
 //@     (s.Elements[i].Ident != nil || s.Elements[i].BindIdent != nil ||
 //@      (s.Elements[i].BindParameters != nil && bpValid(s.Elements[i].BindParameters, len(s.Elements[i].BindParameters.Parameters))))
 
+// The text handed to regexp.Compile is exactly the documented construction: "^", then per element the quoted literal,
+// "(.+)" for a plain bind, or one group "(" + nonCapturing(expression) + ")" per bind of a parameter list, then "$".
+//@ define reParams(bp *BindParameters, k int) string = ite(k <= 0, "", reParams(bp, k - 1) + "(" + route.nonCapturing(*bp.Parameters[k - 1].Value.Regex) + ")")
+//@ define reElem(e SegmentElement) string = ite(e.Ident != nil, regexp.QuoteMeta(*e.Ident), ite(e.BindIdent != nil, "(.+)",
+//@     ite(e.BindParameters == nil, "", reParams(e.BindParameters, len(e.BindParameters.Parameters)))))
+//@ define reElems(s *Segment, k int) string = ite(k <= 0, "^", reElems(s, k - 1) + reElem(s.Elements[k - 1]))
 //@ func constructMatchStyleRegex
-//@   props C08 C02
+//@   props C08 C02 C01
 //@   requires s != nil
+//@   assert[C02,C01] before String#0: buf.content == reElems(s, len(s.Elements)) + "$"
+//@   loop 0 invariant[C02,C01] buf.content == reElems(s, rangeindex + 1)
+//@   loop 1 invariant[C02,C01] buf.content == reElems(s, rangeindex#0) + reParams(e.BindParameters, rangeindex#1 + 1)
 //@   ensures[C08] result2 == nil ==> elemsValid(s, len(s.Elements))
 //@   loop 0 invariant elemsValid(s, rangeindex + 1)
 //@   loop 1 invariant elemsValid(s, rangeindex#0) && e == s.Elements[rangeindex#0] && e.Ident == nil && e.BindIdent == nil && e.BindParameters != nil && bpValid(e.BindParameters, rangeindex#1 + 1)
